@@ -11,7 +11,8 @@
    [spec_samples] is the declarative listing "what a scrape must contain" (per option); [scrape] mirrors the
    code (per registered metric, picking options by type).  No proofs in this file. *)
 From Coq Require Export String.
-From CR Require Export Model.Types Model.Forwarding.
+From CR Require Export Model.Types.
+From CR Require Export Model.Forwarding.
 From CR Require gen.ExtMetrics.
 Local Open Scope Z_scope.
 
